@@ -495,6 +495,8 @@ class Interp:
             return self.instantiate(fn, args, kwargs, node)
         if isinstance(fn, Opaque):
             self.ctx.events.append(("call", fn.tag, len(args)))
+            if getattr(self, "havoc_unknown_calls", False) and self.ctx.branch(self.ctx.fresh_bool("callee_raises")):
+                raise PyExc(Exception, (), where=f"in {fn.tag}")
             return Opaque(f"{fn.tag}()", fn, *args)
         if isinstance(fn, SObj):
             c = self.lookup_special(fn, "__call__")
@@ -567,6 +569,11 @@ class Interp:
         m = getattr(self, "local_models", {}).get(id(fn)) or MODELS.get(id(fn))  # case-level models first
         if m is not None and id(fn) not in self.target_ids:
             return m(self, *args, **kwargs)
+        if id(fn) in self.target_ids and self.depth >= 1 and getattr(self, "havoc_unknown_calls", False):
+            # recursive call of the function under an exception-safety obligation: any outcome
+            if self.ctx.branch(self.ctx.fresh_bool("callee_raises")):
+                raise PyExc(Exception, (), where=f"in recursive {fn.__qualname__}")
+            return Opaque(f"{fn.__qualname__}()")
         if id(fn) in self.target_ids or id(fn) in INLINE:
             return self.interpret_function(fn, args, kwargs, node)
         if not self.is_repo_function(fn):
@@ -574,6 +581,12 @@ class Interp:
             if fn.__module__ == "typing" and fn.__name__ == "cast":
                 return args[1]
             return self.native_call(fn, args, kwargs, node)
+        if getattr(self, "havoc_unknown_calls", False):
+            # exception-safety mode: an uncontracted callee returns something or raises
+            self.ctx.events.append(("havoc-call", fn.__qualname__))
+            if self.ctx.branch(self.ctx.fresh_bool("callee_raises")):
+                raise PyExc(Exception, (), where=f"in {fn.__qualname__}")
+            return Opaque(f"{fn.__qualname__}()")
         self.outside(
             f"call to {fn.__module__}:{fn.__qualname__} which has neither a contract nor an inline mark",
             node,
